@@ -17,6 +17,7 @@ type recPC struct {
 	deadline time.Time
 	sets     int
 	nextFrom net.Addr
+	failNext bool // the next WriteTo fails (EINVAL / ENETUNREACH at the socket)
 }
 
 func (p *recPC) ReadFrom(b []byte) (int, net.Addr, error) {
@@ -24,11 +25,19 @@ func (p *recPC) ReadFrom(b []byte) (int, net.Addr, error) {
 	defer p.mu.Unlock()
 	return 1, p.nextFrom, nil
 }
-func (p *recPC) WriteTo(b []byte, a net.Addr) (int, error) { return len(b), nil }
-func (p *recPC) Close() error                              { return nil }
-func (p *recPC) LocalAddr() net.Addr                       { return &net.UDPAddr{IP: net.IPv4(127, 0, 0, 1), Port: 1} }
-func (p *recPC) SetDeadline(t time.Time) error             { return p.SetReadDeadline(t) }
-func (p *recPC) SetWriteDeadline(t time.Time) error        { return nil }
+func (p *recPC) WriteTo(b []byte, a net.Addr) (int, error) {
+	p.mu.Lock()
+	defer p.mu.Unlock()
+	if p.failNext {
+		p.failNext = false
+		return 0, &net.OpError{Op: "write", Net: "udp", Err: fmt.Errorf("invalid argument")}
+	}
+	return len(b), nil
+}
+func (p *recPC) Close() error                       { return nil }
+func (p *recPC) LocalAddr() net.Addr                { return &net.UDPAddr{IP: net.IPv4(127, 0, 0, 1), Port: 1} }
+func (p *recPC) SetDeadline(t time.Time) error      { return p.SetReadDeadline(t) }
+func (p *recPC) SetWriteDeadline(t time.Time) error { return nil }
 func (p *recPC) SetReadDeadline(t time.Time) error {
 	p.mu.Lock()
 	defer p.mu.Unlock()
@@ -86,6 +95,12 @@ func c14(ctx *Ctx) {
 			if isWrite {
 				if dl0 := func() time.Time { pc.mu.Lock(); defer pc.mu.Unlock(); return pc.deadline }(); !dl0.IsZero() && dl0.After(now) {
 					fastClosed = false // the socket deadline is in the future again
+				}
+				if r.Chance(18) { // the send itself fails: the datagram still is client traffic
+					pc.mu.Lock()
+					pc.failNext = true
+					pc.mu.Unlock()
+					ctx.Count("op:write-fails")
 				}
 				nc.WriteTo([]byte("x"), addr)
 				ops = append(ops, fmt.Sprintf("TWrite %d %s", rel(now), cBool(dns)))
